@@ -236,6 +236,14 @@ Theorem C04_alloc_sgpd_alst_refuted :
 Proof. exact alloc_sgpd_alst_pinned_balloons. Qed.
 Print Assumptions C04_alloc_sgpd_alst_refuted.
 
+(* sgpd, the whole entry loop (seig / roll / rap / alst / other entries, default or per-entry description length),
+   repaired text: bounded by the bytes the reader sees; no size guard exists, the loop stops at the first entry that
+   does not fit or whose Size() differs from its description length *)
+Theorem C04_alloc_sgpd : forall hs hl body,
+  exists o, alloc_sgpd hs hl body = Ok o /\ o_alloc o <= 86 * lenN body + 262208 /\ o_iters o <= 3 * lenN body + 65536.
+Proof. exact alloc_sgpd_bounded. Qed.
+Print Assumptions C04_alloc_sgpd.
+
 (* box level, both decode paths, EVERY byte string shorter than 32 GiB whose box type is one of the 21 modelled
    ones: header, size guard, prologue: at most 8 * len + 1048560 bytes requested, at most 2 * len + 65535 iterations *)
 Theorem C04_alloc_box_sr : forall bs, lenN bs < 34359738376 ->
@@ -300,4 +308,13 @@ Proof. vm_compute. reflexivity. Qed.
 Example ex_stts_ok :
   alloc_box_r [0;0;0;32;115;116;116;115; 0;0;0;0; 0;0;0;2; 0;0;0;1;0;0;0;1; 0;0;0;1;0;0;0;1] = Some (Ok (mkO true 2 16 2))
   /\ lenN ex_trun_fsf_big < 34359738376.
+Proof. vm_compute. split; reflexivity. Qed.
+
+(* an sgpd with two roll entries decodes to 2 entries; one with grouping type alst and default_length 2 is rejected *)
+Example ex_sgpd_roll :
+  alloc_box_sr [0;0;0;28;115;103;112;100; 1;0;0;0; 114;111;108;108; 0;0;0;2; 0;0;0;2; 255;255; 255;255]
+  = Some (Ok (mkO true 2 48 2)).
+Proof. vm_compute. reflexivity. Qed.
+Example ex_sgpd_alst_rejected :
+  match alloc_box_sr ([0;0;0;28;115;103;112;100] ++ alst_witness) with Some (Ok o) => o_ok o = false /\ o_alloc o = 56 | _ => False end.
 Proof. vm_compute. split; reflexivity. Qed.
